@@ -8,7 +8,7 @@ import (
 	"gonum.org/v1/gonum/lapack/gonum"
 	"gonum.org/v1/gonum/lapack/lapack64"
 
-	"verif/harness/internal/core"
+	"gonum.org/v1/gonum/verifharness/internal/core"
 )
 
 var impl gonum.Implementation
@@ -34,7 +34,7 @@ func luFamily(c *inst, raw json.RawMessage, full bool, sum *core.Summary) {
 		if mn >= 2 {
 			sum.Nontrivial++
 		}
-		if mn > 64 {
+		if mn > 64 || forcedNB > 0 && forcedNB < mn {
 			sum.Count("calls_on_blocked_sizes", 1)
 		}
 	}
